@@ -37,10 +37,16 @@ def run_file_histories(ctx, found):
 
             value = 1
             for step in range(ctx.n(6, 12)):
-                op = "run" if step == 0 else rng.choice(["update", "update", "repeat", "delete"])
+                script = ["run", "touch", "update", "repeat", "fresh", "delete"]
+                op = script[step] if step < len(script) else rng.choice(["update", "update", "repeat", "delete", "touch", "fresh"])
                 if op == "update":
                     value += rng.randrange(1, 50)
                     time.sleep(rng.choice([0.005, 0.02, 0.05]))      # later than, but usually in the same second as, the stores
+                    with open(P("in.txt"), "w") as f:
+                        f.write(str(value))
+                elif op == "touch":
+                    # the input is re-exported with the SAME content: newer modified time, identical bytes downstream
+                    time.sleep(rng.choice([0.005, 0.02, 0.05]))
                     with open(P("in.txt"), "w") as f:
                         f.write(str(value))
                 elif op == "delete":
@@ -49,7 +55,13 @@ def run_file_histories(ctx, found):
                         os.remove(P(victim))
                 del calls[:]
                 before = {n: os.stat(P(n)).st_mtime_ns for n in ("a.json", "c.json") if os.path.exists(P(n))}
-                out = uj.run(plan, registry=reg, output=c, progress=None, max_workers=rng.choice([1, 3]))
+                fresh = None
+                if op == "fresh":
+                    import datetime as dt
+                    time.sleep(0.02)
+                    fresh = dt.datetime.now()      # naive local, as the documentation passes it: everything stored is older
+                    time.sleep(0.02)
+                out = uj.run(plan, registry=reg, output=c, progress=None, max_workers=rng.choice([1, 3]), fresh_time=fresh)
                 rep = {"variant": variant, "step": step, "op": op, "source_kind": src_kind, "value": value, "calls": list(calls),
                        "listing": sorted(os.listdir(d))}
                 ctx.case(("file-history", variant, step, op))
@@ -63,7 +75,17 @@ def run_file_histories(ctx, found):
                     after = {n: os.stat(P(n)).st_mtime_ns for n in ("a.json", "c.json")}
                     if calls or after != before:
                         found.append(("C05", "files:repeat-not-idempotent", "repeated run on file stores executed %r / rewrote files" % (calls,), rep))
-                if op == "update" and sorted(calls) != ["a", "b", "c"]:
-                    found.append(("C05", "files:not-rebuilt-after-update", "after a source update the run executed %r" % (calls,), rep))
+                if op in ("update", "touch", "fresh") and sorted(calls) != ["a", "b", "c"]:
+                    found.append(("C05", "files:not-rebuilt-after-update", "after %s the run executed %r" % (
+                        {"update": "a source update", "touch": "the source was rewritten with the same content", "fresh": "fresh_time = now"}[op], calls), rep))
+                if op in ("touch", "fresh"):
+                    # ... and the rebuilt values are now up to date: the same run repeated does nothing
+                    del calls[:]
+                    before = {n: os.stat(P(n)).st_mtime_ns for n in ("a.json", "c.json")}
+                    uj.run(plan, registry=reg, progress=None, max_workers=1, fresh_time=fresh)
+                    after = {n: os.stat(P(n)).st_mtime_ns for n in ("a.json", "c.json")}
+                    if calls or after != before:
+                        found.append(("C05", "files:repeat-not-idempotent", "after %s and a successful rebuild (identical contents), the repeated run executed %r / rewrote %r"
+                                      % (op, list(calls), sorted(n for n in after if after[n] != before[n])), rep))
         finally:
             shutil.rmtree(d, ignore_errors=True)
